@@ -1,5 +1,4 @@
-//go:build verif
-
+//go:build verif && verif_c18
 // Verification hooks for property C18 (settings read back as set): thin
 // exported wrappers around the unexported generic copy helpers, the formula
 // escapers, the legacy password hash, and dumpers for the two protection
